@@ -56,10 +56,12 @@ def make_points(flat, rng, n=4):
             if v["type"] == "Boolean":
                 val = float(rng.random() < 0.5)
             elif v["type"] == "Integer":
-                val = float(rng.randint(1, 7))
+                # parameters named ks* are used as subscripts of arrays with at least two elements
+                val = float(rng.randint(1, 2)) if name.split(".")[-1].startswith("ks") else float(rng.randint(1, 7))
             else:
                 val = round(rng.uniform(0.5, 7.5), 3)
-            env[name] = val if not shape else np.full(shape, val)
+            # array elements get distinct values, so that a wrong subscript is visible
+            env[name] = val if not shape else (np.full(shape, val) + 0.37 * np.arange(int(np.prod(shape))).reshape(shape))
             env["der(%s)" % name] = round(rng.uniform(-3, 3), 3)
         pts.append(env)
     return pts
